@@ -10,6 +10,8 @@
      SFX n            src.Fetch(n) returned an error          (proxy fetch of a manifest, or doCopyNode's fetch)
      PuX n ref stored dst.Push / PushReference(n) returned an error; stored = the content was
                       stored before the error was returned (fault AFTER the side effect)
+     TagX n set       dst.Tag(root) returned an error (Copy into a Tagger); set = the reference was
+                      set before the error was returned
      ProOk / ProX     an operation of the sequential prologue returned / failed: Resolve, MapRoot
                       (Copy), Predecessors / FindPredecessors inside findRoots (ExtendedCopyGraph).
                       After ProX the call returns without dispatching anything.
@@ -42,6 +44,7 @@ Inductive fevent :=
 | ExX (n : node)
 | SFX (n : node)
 | PuX (n : node) (ref stored : bool)
+| TagX (n : node) (set : bool)
 | ProOk
 | ProX
 | Cancel.
@@ -133,6 +136,13 @@ Definition fstep (g : graph) (c : cfg) (ext : bool) (fs : fstate) (fe : fevent) 
                       (if rd then n :: f_rd fs else f_rd fs))
         | _ => None
         end
+    | TagX n set =>
+        match ph st n with
+        | TagP1 _ =>
+            Some (with_base fs (mkState (upd (ph st) n Dead) (dst st) (cached st)
+                                        (if set then Some n else tag st) (returned st)))
+        | _ => None
+        end
     | ProOk => if f_started fs then None else Some fs
     | ProX => if f_started fs then None
               else Some (mkF st (f_cancelled fs) true (f_started fs) (f_rd fs))
@@ -156,7 +166,7 @@ Definition faccepts (g : graph) (c : cfg) (ext : bool) (d0 : list node) (tr : li
 (* the events the property calls faults *)
 Definition is_fault (fe : fevent) : bool :=
   match fe with
-  | Ev (CbFail _ _) | ExX _ | SFX _ | PuX _ _ _ | ProX | Cancel => true
+  | Ev (CbFail _ _) | ExX _ | SFX _ | PuX _ _ _ | TagX _ _ | ProX | Cancel => true
   | _ => false
   end.
 
